@@ -378,7 +378,7 @@ impl C13 {
                 // bias towards typed kinds
                 let mut c = *rng.pick(&objs);
                 for _ in 0..3 {
-                    if c.1 == ObjKind::Other {
+                    if c.1 == ObjKind::Other || c.1 == ObjKind::Scalar {
                         c = *rng.pick(&objs);
                     }
                 }
